@@ -372,7 +372,7 @@ class FullEngine(Engine):
             return v.term
         if isinstance(v, (VRef, VCallback, VAttrs, VAdj)):
             return v.term
-        if isinstance(v, (VList, VSet, VDict)):
+        if isinstance(v, (VList, VSet, VDict, VNet)):
             return v.ref
         return None
 
@@ -477,7 +477,7 @@ class FullEngine(Engine):
             if attr == "_SemiSingleton__semisingleton_hashfunc":
                 return [(p, VCallback(T.hf_of(recv.term), "hf"))]
             raise Unsupported(f"metaclass attribute {attr}")
-        if isinstance(recv, (VList, VSet, VDict, VOwned, VSeq, VGlobalDict, VStr, VOpaque, VAttrs, VAdj)):
+        if isinstance(recv, (VList, VSet, VDict, VOwned, VSeq, VGlobalDict, VStr, VOpaque, VAttrs, VAdj, VNet)):
             return [(p, VBound(recv, attr))]
         if isinstance(recv, VConst) and isinstance(recv.value, tuple) and recv.value[0] in ("memo", "dyndict", "pydict"):
             return [(p, VBound(recv, attr))]
@@ -615,6 +615,11 @@ class FullEngine(Engine):
                 p.st.write("CACHING", (), v.term)
                 return [(p, None)]
             raise Unsupported(f"store to class attribute {attr}")
+        if isinstance(recv, VNet):
+            if attr == "directed" and isinstance(v, VBool):
+                p.st.write("net_directed", recv.ref, v.term)
+                return [(p, None)]
+            raise Unsupported(f"store to attribute {attr} of a pyvis network")
         if isinstance(recv, VOpaque) and recv.what.startswith("ext:"):
             return [(p, None)]          # attribute of a third-party object (A10)
         if not isinstance(recv, VRef):
@@ -700,6 +705,7 @@ class FullEngine(Engine):
         if r is None:
             if isinstance(v, VInt):
                 r = int_box(v.term)
+                p.assume(T.int_unbox(r) == v.term)
             elif isinstance(v, VStr):
                 r = str_box(v.term)
             else:
@@ -1086,7 +1092,16 @@ class FullEngine(Engine):
         if dotted == "json.dumps" and len(args) == 1 and isinstance(args[0], VRef):
             return [(p, VRef(T.jsonk(args[0].term), None, "opaque"))]
         if dotted == "pyvis.network.Network":
-            return [(p.copy(), VRaise("Exception", "pyvis")), (p, VOpaque("ext:pyvis.network.Network"))]
+            # assumed contract of the third-party class (A10): a new network without nodes and edges; its `directed` flag is
+            # whatever the keyword arguments say (unconstrained)
+            out = [] if self.ext_total() else [(p.copy(), VRaise("Exception", "pyvis"))]
+            r = self.alloc(p, self.ct.Other, "container", "net")
+            p.st.write("net_nodes", r, z3.Empty(T.ISeq))
+            p.st.write("net_labels", r, T.EMPTY())
+            for f_ in ("net_from", "net_to", "net_arrow"):
+                p.st.write(f_, r, z3.Empty(T.ISeq))
+            out.append((p, VNet(r)))
+            return out
         if dotted == "collections.deque" and len(args) == 1:
             sq, ecn = self.iter_seq(p, args[0])
             return [(p, self.new_list(p, sq, ecn, "deque"))]
@@ -1430,6 +1445,8 @@ class FullEngine(Engine):
             return [(p, VConst(("items", recv.term)))]
         if isinstance(recv, VDict) and name == "items":
             raise Unsupported("dict.items() of an argument dictionary")
+        if isinstance(recv, VNet):
+            return self.call_net_method(recv, name, args, kw, p)
         if isinstance(recv, VOpaque) and recv.what.startswith("ext:"):
             # a method of an unverified third-party object (A10): no effect on edgegraph state; it may raise
             out = [(p.copy(), VRaise("AssertionError" if name == "add_edge" else "Exception", f"{recv.what}.{name}"))]
@@ -1438,6 +1455,58 @@ class FullEngine(Engine):
             out.append((p, VOpaque("ext:result")))
             return out
         raise Unsupported(f"method {name} of {type(recv).__name__}")
+
+
+    # -- pyvis.network.Network: ASSUMED contract of the dependency (validated against the real class by the explorer) -------------
+    def ext_total(self):
+        return bool(getattr(self.cur_contract, "ext_total", False))
+
+    def as_int(self, v):
+        if isinstance(v, VInt):
+            return v.term
+        r = self.ref_of(v)
+        if r is None:
+            raise Unsupported("node id of a pyvis network")
+        return T.int_unbox(r)
+
+    def call_net_method(self, recv, name, args, kw, p: Path):
+        """add_node(id, label=..): appended unless the id is already a node.  add_edge(a, b, ..): AssertionError unless both
+        ids are nodes; in an undirected network (`directed` false) nothing is added when some record already joins the two ids in
+        either orientation; otherwise the record (a, b, arrow = directed) is appended.  Neither touches edgegraph objects."""
+        r = recv.ref
+        st = p.st
+        out = [] if self.ext_total() else [(p.copy(), VRaise("Exception", f"pyvis.{name}"))]
+        if name == "add_node" and len(args) == 1 and set(kw) <= {"label"}:
+            i = self.as_int(args[0])
+            lab = kw.get("label")
+            lr = self.ref_of(lab) if lab is not None else NONE
+            if lr is None:
+                lr = str_box(lab.term) if isinstance(lab, VStr) else (int_box(lab.term) if isinstance(lab, VInt) else None)
+            if lr is None:
+                raise Unsupported("label of a pyvis node")
+            nodes, labels = st.read("net_nodes", r), st.read("net_labels", r)
+            dup = z3.Contains(nodes, z3.Unit(i))
+            st.write("net_nodes", r, z3.If(dup, nodes, z3.Concat(nodes, z3.Unit(i))))
+            st.write("net_labels", r, T.ite(dup, labels, T.snoc(labels, lr)))
+            out.append((p, NONE_V))
+            return out
+        if name == "add_edge" and len(args) == 2:
+            i, j = self.as_int(args[0]), self.as_int(args[1])
+            nodes = st.read("net_nodes", r)
+            ok = z3.And(z3.Contains(nodes, z3.Unit(i)), z3.Contains(nodes, z3.Unit(j)))
+            for (q, side) in self.fork(p, ok, "pyvis-nodes-exist"):
+                if not side:
+                    out.append((q, VRaise("AssertionError", "pyvis.add_edge: no such node")))
+                    continue
+                fr, to, ar = q.st.read("net_from", r), q.st.read("net_to", r), q.st.read("net_arrow", r)
+                d = q.st.read("net_directed", r)
+                there = z3.And(z3.Not(d), T.joined(fr, to, i, j))
+                q.st.write("net_from", r, z3.If(there, fr, z3.Concat(fr, z3.Unit(i))))
+                q.st.write("net_to", r, z3.If(there, to, z3.Concat(to, z3.Unit(j))))
+                q.st.write("net_arrow", r, z3.If(there, ar, z3.Concat(ar, z3.Unit(z3.If(d, z3.IntVal(1), z3.IntVal(0))))))
+                out.append((q, NONE_V))
+            return out
+        raise Unsupported(f"method {name} of a pyvis network")
 
     # -- builtins ----------------------------------------------------------------------------------------------------
     def call_builtin(self, name, args, kw, p: Path, node=None):
@@ -1502,6 +1571,10 @@ class FullEngine(Engine):
         if name == "sorted" and len(args) == 1 and set(kw) == {"key"} and isinstance(kw["key"], VCallback):
             sq, ecn = self.iter_seq(p, args[0])
             return [(p, self.new_list(p, T.sortedby(kw["key"].term, sq), ecn, "sorted"))]
+        if name == "id" and len(args) == 1 and isinstance(args[0], VRef):
+            return [(p, VConst(("id", args[0].term)))]
+        if name == "hex" and len(args) == 1 and isinstance(args[0], VConst) and isinstance(args[0].value, tuple) and args[0].value[0] == "id":
+            return [(p, VRef(T.hexid(args[0].value[1]), None, "opaque"))]       # hex(id(obj)): an opaque label value
         if name in ("hex", "id", "repr", "str") and len(args) == 1:
             return [(p, VOpaque(name))]
         if name == "set" and not args:
